@@ -5,6 +5,7 @@
 //! * `spec <max> <interval> <d>:<o> ...`  — the real `speculative_execution::execute` over synthetic fibers:
 //!   the i-th fiber created by the generator sleeps `d_i` ms (0 = does not sleep at all) and returns `o_i`
 //!   (`ok`, `none` = plan exhausted, or an error name); fibers beyond the script return `none` at once;
+//! * `lbplan <shards> <ident> <node> <shard>` — the real `load_balancing::Plan` over the real `SingleTargetLoadBalancingPolicy` on a hook-built cluster;
 //! * `gate <idem>[/<timeout>] <none|max:interval> <c>:<d>:<o>:<dec> ...` — the real `run_request_no_side_effects` (with `request_timeout = timeout` ms when given)
 //!   (idempotence gate + `SharedPlan` + real fibers) over synthetic targets: target k has a connection iff
 //!   `c = 1`, an attempt on it takes `d` ms and ends with `o` (`ok` or an attempt-error name); on an error the
@@ -696,6 +697,17 @@ pub fn generate(rng: &mut Rng, tier: Tier, emit: &mut dyn FnMut(String)) {
     for t in universe() {
         emit(format!("class {}", t));
     }
+    // the real Plan over the real single-target policy: every identifier kind x node x shard (none / in range / out of range)
+    for shards in ["0", "4", "0,0", "0,4", "4,2", "1,0,3", "2,2,2"] {
+        let n = shards.split(',').count();
+        for ident in ["host", "node", "addr", "nohost", "noaddr"] {
+            for target in 0..n {
+                for shard in ["-", "0", "1", "3", "7"] {
+                    emit(format!("lbplan {} {} {} {}", shards, ident, target, shard));
+                }
+            }
+        }
+    }
     let spec_pools = universe_by_class(false);
     let gate_pools = universe_by_class(true);
     // every value of the universe as the outcome of the first execution while a second one is pending
@@ -1265,10 +1277,126 @@ fn run_gate(w: &[&str], ctx: &mut Ctx) -> String {
     )
 }
 
+// ---- lbplan: the real `load_balancing::Plan` over the real `SingleTargetLoadBalancingPolicy` ----------------------
+
+thread_local! {
+    static RT_LB: tokio::runtime::Runtime = tokio::runtime::Builder::new_current_thread().enable_all().build().unwrap();
+}
+
+fn lb_host_id(i: usize) -> uuid::Uuid {
+    uuid::Uuid::from_u128(0x1300_0000_0000_0000_0000_0000_0000_0000u128 + i as u128 + 1)
+}
+
+/// `lbplan <nr_shards per node, 0 = unsharded> <host|node|addr|nohost|noaddr> <target node> <shard|->`
+fn run_lbplan(w: &[&str], ctx: &mut Ctx) -> String {
+    use scylla::policies::load_balancing::{LoadBalancingPolicy, NodeIdentifier, Plan, RoutingInfo, SingleTargetLoadBalancingPolicy};
+    use scylla::verif_hooks::cluster::{NodeSpec, cluster_from_topology, set_sharders};
+    if w.len() != 5 {
+        return "bad-case".to_owned();
+    }
+    let Some(shards) = w[1].split(',').map(|x| x.parse::<u16>().ok()).collect::<Option<Vec<u16>>>() else {
+        return "bad-case".to_owned();
+    };
+    let Ok(target) = w[3].parse::<usize>() else { return "bad-case".to_owned() };
+    let shard: Option<u32> = match w[4] {
+        "-" => None,
+        x => match x.parse::<u32>() {
+            Ok(v) => Some(v),
+            Err(_) => return "bad-case".to_owned(),
+        },
+    };
+    if shards.is_empty() || shards.len() > 8 || target >= shards.len() || !["host", "node", "addr", "nohost", "noaddr"].contains(&w[2]) {
+        return "bad-case".to_owned();
+    }
+    let nodes: Vec<NodeSpec> = (0..shards.len())
+        .map(|i| NodeSpec {
+            host_id: lb_host_id(i),
+            datacenter: Some("dc1".to_owned()),
+            rack: Some("r1".to_owned()),
+            tokens: vec![(i as i64 + 1) * 1000],
+            enabled: true,
+            connected: true,
+        })
+        .collect();
+    let cs = RT_LB.with(|rt| rt.block_on(cluster_from_topology(&nodes, &[])));
+    let sharders: std::collections::HashMap<uuid::Uuid, (u16, u8)> =
+        shards.iter().enumerate().filter(|(_, n)| **n > 0).map(|(i, n)| (lb_host_id(i), (*n, 12u8))).collect();
+    set_sharders(&cs, &sharders);
+    let idx_of = |n: &scylla::cluster::Node| (0..shards.len()).find(|i| lb_host_id(*i) == n.host_id).unwrap_or(99);
+    let ident = match w[2] {
+        "host" => NodeIdentifier::HostId(lb_host_id(target)),
+        "nohost" => NodeIdentifier::HostId(lb_host_id(77)),
+        "noaddr" => NodeIdentifier::NodeAddress("127.77.77.77:1".parse().unwrap()),
+        "node" => match cs.get_nodes_info().iter().find(|n| n.host_id == lb_host_id(target)) {
+            Some(n) => NodeIdentifier::Node(Arc::clone(n)),
+            None => return "bad-case".to_owned(),
+        },
+        _ => match cs.get_nodes_info().iter().find(|n| n.host_id == lb_host_id(target)) {
+            Some(n) => NodeIdentifier::NodeAddress(std::net::SocketAddr::new(n.address.ip(), n.address.port())),
+            None => return "bad-case".to_owned(),
+        },
+    };
+    let policy: Arc<dyn LoadBalancingPolicy> = SingleTargetLoadBalancingPolicy::new(ident, shard);
+    let ri = RoutingInfo::default();
+    let raw_pick: Option<(usize, Option<u32>)> = policy.pick(&ri, &cs).map(|(n, s)| (idx_of(n), s));
+    let raw_fb: Vec<(usize, Option<u32>)> = policy.fallback(&ri, &cs).map(|(n, s)| (idx_of(n), s)).collect();
+    let plan: Vec<(usize, u32)> = Plan::new(&*policy, &ri, &cs).map(|(n, s)| (idx_of(n), s)).collect();
+    // ---- oracle: no two plan entries are the same target ----
+    // raw entries as `Plan` takes them: the picked one, then the fallback without exact copies of it
+    let mut raw: Vec<(usize, Option<u32>)> = Vec::new();
+    match raw_pick {
+        Some(p) => {
+            raw.push(p);
+            raw.extend(raw_fb.iter().filter(|t| **t != p));
+        }
+        None => {
+            if let Some(f) = raw_fb.first() {
+                raw.push(*f);
+                raw.extend(raw_fb[1..].iter().filter(|t| *t != f));
+            }
+        }
+    }
+    let is_sharded = |n: usize| shards.get(n).map(|k| *k > 0).unwrap_or(false);
+    for a in 0..raw.len() {
+        for b in a + 1..raw.len() {
+            // a shard-less entry may be sent to any shard of its node: it covers every shard
+            let same = raw[a].0 == raw[b].0 && (!is_sharded(raw[a].0) || raw[a].1.is_none() || raw[b].1.is_none() || raw[a].1 == raw[b].1);
+            if same {
+                ctx.fail(format!(
+                    "the policy's plan names the same target twice: entries {:?} and {:?} (node, shard; no shard = any shard of the node)",
+                    raw[a], raw[b]
+                ));
+            }
+        }
+    }
+    for a in 0..plan.len() {
+        for b in a + 1..plan.len() {
+            if plan[a].0 == plan[b].0 && (!is_sharded(plan[a].0) || plan[a].1 == plan[b].1) {
+                ctx.fail(format!("Plan yields the same target twice: {:?} and {:?}", plan[a], plan[b]));
+            }
+        }
+    }
+    if plan.len() != raw.len() {
+        ctx.fail(format!("Plan yields {} targets, pick + filtered fallback give {}", plan.len(), raw.len()));
+    }
+    let (found, single) = (!matches!(w[2], "nohost" | "noaddr"), matches!(raw_pick, Some(_)));
+    if found != single {
+        ctx.fail(format!("single-target pick = {:?} although the node is {}", raw_pick, if found { "known" } else { "unknown" }));
+    }
+    let rt = |t: &(usize, Option<u32>)| format!("{}:{}", t.0, t.1.map(|s| s.to_string()).unwrap_or_else(|| "-".to_owned()));
+    format!(
+        "pick={} fb={} plan={}",
+        raw_pick.as_ref().map(rt).unwrap_or_else(|| "none".to_owned()),
+        if raw_fb.is_empty() { "-".to_owned() } else { raw_fb.iter().map(rt).collect::<Vec<_>>().join(",") },
+        if plan.is_empty() { "-".to_owned() } else { plan.iter().map(|(n, s)| format!("{}:{}", n, s)).collect::<Vec<_>>().join(",") }
+    )
+}
+
 pub fn run(case: &str, ctx: &mut Ctx) -> String {
     let w: Vec<&str> = case.split_whitespace().collect();
     match w.first().copied() {
         Some("class") => run_class(&w, ctx),
+        Some("lbplan") => run_lbplan(&w, ctx),
         Some("spec") => run_spec(&w, None, ctx),
         // developer self-test of the oracle (never generated): `mut<k>` runs a local copy of the select loop with
         // seeded bug k instead of the driver's `execute`
